@@ -40,11 +40,11 @@ var assertExceptions = map[string]string{
 
 // boundsExceptions: slice expressions accepted by reading.
 var boundsExceptions = map[string]string{
-	"(*github.com/coredhcp/coredhcp/server.listener4).Serve (*sync.Pool).Get(&server.bufpool).(*[]byte)[:65536]": "pool buffers are made with len = cap = MaxDatagram by bufpool.New and only ever resliced shorter; reslicing to MaxDatagram is within capacity",
-	"(*github.com/coredhcp/coredhcp/server.listener6).Serve (*sync.Pool).Get(&server.bufpool).(*[]byte)[:65536]": "pool buffers are made with len = cap = MaxDatagram by bufpool.New and only ever resliced shorter; reslicing to MaxDatagram is within capacity",
+	"(*github.com/coredhcp/coredhcp/server.listener4).Serve (*sync.Pool).Get(&server.bufpool).(*[]byte)[:65536]":                                                                                                                              "pool buffers are made with len = cap = MaxDatagram by bufpool.New and only ever resliced shorter; reslicing to MaxDatagram is within capacity",
+	"(*github.com/coredhcp/coredhcp/server.listener6).Serve (*sync.Pool).Get(&server.bufpool).(*[]byte)[:65536]":                                                                                                                              "pool buffers are made with len = cap = MaxDatagram by bufpool.New and only ever resliced shorter; reslicing to MaxDatagram is within capacity",
 	"(*github.com/coredhcp/coredhcp/server.listener4).Serve (*sync.Pool).Get(&server.bufpool).(*[]byte)[:65536][:(*x/net/ipv4.payloadHandler).ReadFrom(&$0.PacketConn.payloadHandler,(*sync.Pool).Get(&server.bufpool).(*[]byte)[:65536])#0]": "ReadFrom returns n ≤ len(b) (io contract of x/net)",
 	"(*github.com/coredhcp/coredhcp/server.listener6).Serve (*sync.Pool).Get(&server.bufpool).(*[]byte)[:65536][:(*x/net/ipv6.payloadHandler).ReadFrom(&$0.PacketConn.payloadHandler,(*sync.Pool).Get(&server.bufpool).(*[]byte)[:65536])#0]": "ReadFrom returns n ≤ len(b) (io contract of x/net)",
-	"github.com/coredhcp/coredhcp/server.sendEthernet $1.ClientHWAddr[0:6]": "dhcpv4.FromBytes/New build ClientHWAddr by reslicing a 16-byte buffer; a slice expression within capacity cannot panic (fact re-derived: see C01.FACT-CHADDR16)",
+	"github.com/coredhcp/coredhcp/server.sendEthernet $1.ClientHWAddr[0:6]":                                                                                                                                                                   "dhcpv4.FromBytes/New build ClientHWAddr by reslicing a 16-byte buffer; a slice expression within capacity cannot panic (fact re-derived: see C01.FACT-CHADDR16)",
 }
 
 // needsLen: library functions that index their slice argument unconditionally.
@@ -77,14 +77,14 @@ func stableKey(s string) string {
 // ---- the per-function safety pass ------------------------------------------
 
 type safetyPass struct {
-	c      *Ctx
-	prefix string // rule prefix, e.g. "C01."
-	pred   map[*ssa.Function]*ssa.Function
-	on     map[string]bool
-	ex     *Explorer
-	fn     *ssa.Function
-	ordinal map[string]int
-	mayNil map[string]bool
+	c        *Ctx
+	prefix   string // rule prefix, e.g. "C01."
+	pred     map[*ssa.Function]*ssa.Function
+	on       map[string]bool
+	ex       *Explorer
+	fn       *ssa.Function
+	ordinal  map[string]int
+	mayNil   map[string]bool
 	sendSeen map[ssa.Instruction]bool
 }
 
@@ -1501,6 +1501,12 @@ func derefsParamUnguarded(fn *ssa.Function, i int, depth int) bool {
 // boundsException looks a construct up in the exception table; `x[:n]` and
 // `x[0:n]` are the same construct.
 func boundsException(key string) (string, bool) {
+	// the table names anchors by their pinned names
+	if curProg != nil {
+		if fn := curProg.Anchor("sendEthernet"); fn != nil && strings.HasPrefix(key, fn.String()+" ") {
+			key = "github.com/coredhcp/coredhcp/server.sendEthernet" + key[len(fn.String()):]
+		}
+	}
 	if why, ok := boundsExceptions[key]; ok {
 		return why, true
 	}
